@@ -14,10 +14,10 @@ use std::path::{Path, PathBuf};
 
 const DEFAULT_COMPRESSED_SUFFIX: &str = ".gz";
 
-// Regex to parse filenames like: "prefix.YYYY-MM-DD_HH-MM-SS.1.log"
+// Regex to parse the part of a rolled file name after "{prefix}.": "YYYY-MM-DD_HH-MM-SS.1.log"
 // Captures: 1=timestamp, 2=sequence
 static ROLLED_FILE_REGEX: Lazy<Regex> = Lazy::new(|| {
-  Regex::new(r"\.((?:\d{4}-\d{2}-\d{2})|(?:\d{4}-\d{2}-\d{2}_\d{2}-\d{2}-\d{2}))\.(\d+)").unwrap()
+  Regex::new(r"^((?:\d{4}-\d{2}-\d{2}_\d{2}-\d{2}-\d{2})|(?:\d{4}-\d{2}-\d{2}))\.(\d+)").unwrap()
 });
 
 /// A model representing a parsed rolled file, crucial for correct sorting.
@@ -218,25 +218,24 @@ impl CustomRoller {
         continue;
       }
       if let Some(file_name) = path.file_name().and_then(|n| n.to_str()) {
-        // Rolled files are named "{prefix}.{period}.{seq}{suffix}": require the '.' right
-        // after the prefix so a sibling appender ("{prefix}_x...") is never mistaken for ours.
-        if !file_name
+        // Rolled files are named "{prefix}.{period}.{seq}{suffix}": only the part right after
+        // "{prefix}." is parsed (anchored), so neither a sibling appender nor a prefix that itself
+        // contains a date can be mistaken for a rolled file of this appender.
+        let Some(rest) = file_name
           .strip_prefix(self.policy.file_name_prefix.as_str())
-          .is_some_and(|rest| rest.starts_with('.'))
-        {
+          .and_then(|r| r.strip_prefix('.'))
+        else {
           continue;
-        }
+        };
 
         // Check if it's a compressed file, using the configured suffix.
         let compressed_suffix = self.compressed_suffix();
-        let is_compressed = file_name.ends_with(compressed_suffix);
+        let is_compressed = rest.ends_with(compressed_suffix);
         let name_to_parse = if is_compressed {
           // Strip the compressed suffix before parsing with regex
-          file_name
-            .strip_suffix(compressed_suffix)
-            .unwrap_or(file_name)
+          rest.strip_suffix(compressed_suffix).unwrap_or(rest)
         } else {
-          file_name
+          rest
         };
 
         if let Some(caps) = ROLLED_FILE_REGEX.captures(name_to_parse) {
